@@ -105,6 +105,9 @@ type PX struct {
 	havocked  map[string]*loopInfo // frame id + header index -> loop summarised on some path
 	modCache  map[*ssa.Function]map[string]bool
 	extraPure map[string]bool // further callees whose results are functions of their arguments for this exploration
+	// views: slices of slices / strings are terms view(root, lo, hi) with symbolic
+	// bounds, and len of a view is hi-lo (see pxviews.go); off by default.
+	views bool
 }
 
 func (w *World) newPX(h pxHooks) *PX {
@@ -300,6 +303,10 @@ func (p *PX) term(v ssa.Value, fr *pxFrame, st *pxState) *Term {
 			a, i := p.term(x.X, fr, st), p.term(x.Index, fr, st)
 			return &Term{K: TPure, Name: "strindex", Args: []*Term{a, i}, T: v.Type(), key: "idx(" + a.key + "," + i.key + ")"}
 		}
+	case *ssa.Slice:
+		if p.views {
+			return p.sliceView(x, fr, st)
+		}
 	case *ssa.Call:
 		if t, ok := st.vals[p.reg(fr, v)]; ok {
 			return t
@@ -314,6 +321,9 @@ func (p *PX) term(v ssa.Value, fr *pxFrame, st *pxState) *Term {
 				return p.term(ms.Len, fr, st)
 			}
 			a := p.term(c.Args[0], fr, st)
+			if ml, ok := st.vals["mklen:"+a.key]; ok && p.views {
+				return ml // a slice made on this path: the length it was made with
+			}
 			return p.lenTerm(a, v.Type())
 		}
 		if b, ok := c.Value.(*ssa.Builtin); ok && b.Name() == "append" && len(c.Args) == 2 && !isByteSlice(v.Type()) {
@@ -499,6 +509,11 @@ func (p *PX) instrs(fr *pxFrame, b *ssa.BasicBlock, from int, st *pxState, k pxC
 			stepIn = p.hooks.onInstr(fr, in, st)
 		}
 		switch x := in.(type) {
+		case *ssa.MakeSlice:
+			if p.views {
+				// the length the slice is made with, as of now
+				st.vals["mklen:"+p.term(x, fr, st).key] = p.term(x.Len, fr, st)
+			}
 		case *ssa.UnOp:
 			if x.Op == token.MUL {
 				// memory is read now, not when the register is used
@@ -655,6 +670,9 @@ func (p *PX) enter(fr *pxFrame, from, to *ssa.BasicBlock, st *pxState, k pxCont,
 
 // lenTerm: len(a); the length of append(s, k elements) is len(s)+k.
 func (p *PX) lenTerm(a *Term, t types.Type) *Term {
+	if a.K == TPure && a.Name == "view" && len(a.Args) == 3 {
+		return subT(a.Args[2], a.Args[1], t)
+	}
 	if a.K == TPure && a.Name == "append" && len(a.Args) == 2 && a.Args[1].K == TConst {
 		inner := p.lenTerm(a.Args[0], t)
 		k := a.Args[1]
